@@ -47,7 +47,8 @@ class deadline:
 
     def __enter__(self):
         self.old = signal.signal(signal.SIGALRM, _alarm)
-        signal.setitimer(signal.ITIMER_REAL, self.seconds)
+        # periodic: if the first alarm is swallowed by a bare except somewhere below, the next one comes
+        signal.setitimer(signal.ITIMER_REAL, self.seconds, 0.25)
 
     def __exit__(self, *exc):
         signal.setitimer(signal.ITIMER_REAL, 0)
